@@ -236,9 +236,14 @@ Proof. vm_compute. repeat split; intros; discriminate. Qed.
 
 Example C13_example_hook :
   let s := run ex_h (init ex_h) ex_cs in
-  exists s1 s2, f_update s (Some 0%N) (Some 2%N) 70 = Ok s1 /\ f_votes_hook s1 (Some 0%N) (Some 2%N) 70 = Ok s2 /\
-                get_votes (s_v s2) 2%N = Ok 100 /\ balance_of s2 0%N = 0.
-Proof. vm_compute. do 2 eexists. repeat split. Qed.
+  match f_update s (Some 0%N) (Some 2%N) 70 with
+  | Ok s1 => match f_votes_hook s1 (Some 0%N) (Some 2%N) 70 with
+             | Ok s2 => get_votes (s_v s2) 2%N = Ok 100 /\ balance_of s2 0%N = 0
+             | Fail => False
+             end
+  | Fail => False
+  end.
+Proof. vm_compute. split; reflexivity. Qed.
 
 (* the hypotheses of C13_monitor_accepts_model are satisfiable *)
 Example C13_example_monitor :
